@@ -68,8 +68,8 @@ SIGMAS = [0.5, 1, 2, 3, 4]
 
 def plan(tier):
     if tier == "quick":
-        return dict(n_cases=26 * len(CLASSES), shards=1, classes=CLASSES, timeout_s=900,
-                    min_evals={"lp_gain": 1200, "lp_hard_edge": 700, "lp_soft_edge": 400, "lp_soft_rays": 350, "lp_soft_symmetry": 300,
+        return dict(n_cases=28 * len(CLASSES), shards=1, classes=CLASSES, timeout_s=900,
+                    min_evals={"lp_gain": 1200, "lp_hard_edge": 700, "lp_soft_edge": 400, "lp_soft_rays": 350, "lp_soft_symmetry": 220,
                                "hp_gain": 1200, "hp_complement": 1200, "bp_difference": 500, "bp_gain": 500, "res2pix": 150,
                                "filter_radius": 2500, "linearity": 250, "shift_commute": 250, "plane_wave": 2500,
                                "resolution_equiv": 100})
